@@ -4,6 +4,12 @@
 (* variables <<kind, step, traj>>; RefTraj is bound to the recorded checkpoint-free run of the   *)
 (* same case, and the Level-A statement is evaluated on every line:                             *)
 (*   SaveLoadOk   the round trip through the public SerdeAPI returns Ok                         *)
+(*                — through every medium (memory, from_reader, a fresh file, another spelling of  *)
+(*                the format name, a file written over the longer checkpoint of an earlier run) *)
+(*                and for every size class of the object; `ok`, `size`, `disk` are bound to the *)
+(*                recording (disk[fmt] = document length and the bytes found behind it)         *)
+(*   MediumIndependent  a load through another medium succeeds iff the load of the same object  *)
+(*                through memory does, and gives an object with the same digest                 *)
 (*   Idempotent   a second round trip returns Ok and an object with the same digest (no drift)  *)
 (*   LoadFidelity the numbers of the object deserialised without init() are the saved ones:     *)
 (*                bit-exact for yaml / bin, within 1 unit in the last place for json            *)
@@ -20,7 +26,8 @@
 (* Digests are pairs of integers < 2^30 (60 bits of FNV-1a of the canonical value tree); they   *)
 (* are only ever compared for equality. Failures do not block: they are appended to `viol` and  *)
 (* the state re-synchronises. Failures are recorded at most MaxPerSig times per signature       *)
-(* <<kind, event, invariant, fmt, error class, skipped?, non-finite?, Location?>> (the format-  *)
+(* <<kind, event, invariant, fmt, medium if the outcome depends on it, error class, skipped?,    *)
+(* non-finite?, Location?>> (the format-  *)
 (* level defects F-C17-1..3 fail thousands of lines); every failure is counted in `stats`.      *)
 EXTENDS Checkpoint, Json, IOUtils
 
@@ -30,23 +37,27 @@ MaxPerSig == 3
 TolQ == 1100          \* 1e-9 in units of 2^-40 (relative to the largest magnitude of the leaf's class)
 
 VARIABLES l, ref, refoks, refstart, jsonSeen, last, seen, viol, stats
-tvars == <<kind, step, traj, obj, hist, l, ref, refoks, refstart, jsonSeen, last, seen, viol, stats>>
+tvars == <<kind, size, step, traj, obj, disk, ok, hist, l, ref, refoks, refstart, jsonSeen, last, seen, viol, stats>>
 
 Stat0 == [cases |-> 0, steps |-> 0, moved |-> 0, resumed_exact |-> 0, resumed_tol |-> 0, resume_fail |-> 0,
           saveloads |-> 0, sl_ok |-> 0, sl_fail |-> 0, via_file |-> 0, after_load_steps |-> 0,
+          via_over |-> 0, over_shorter |-> 0, via_reader |-> 0, via_alias |-> 0, large_saveloads |-> 0, big_bin_nonmem |-> 0,
+          big_text_nonmem |-> 0, junk_behind_doc |-> 0, medium_fail |-> 0,
           fail_bin_skipped |-> 0, fail_bin_location |-> 0, fail_json_nonfinite |-> 0, fail_other |-> 0,
           idem_fail |-> 0, idem_json_few_ulps |-> 0, fidelity_fail |-> 0, fidelity_json_few_ulps |-> 0, json_1ulp_loads |-> 0,
           reload_neq_orig |-> 0, step_err |-> 0, panics |-> 0, dedup |-> 0]
 
 TInit == /\ l = 1 /\ ref = <<>> /\ refoks = <<>> /\ refstart = <<0, 0>> /\ jsonSeen = FALSE /\ last = <<0, 0>>
          /\ seen = <<>> /\ viol = <<>> /\ stats = Stat0
-         /\ kind = "" /\ step = 0 /\ traj = <<>> /\ obj = Fresh /\ hist = <<>>
+         /\ kind = "" /\ size = "small" /\ step = 0 /\ traj = <<>> /\ obj = Fresh /\ hist = <<>>
+         /\ disk = [f \in Formats |-> Doc(0)] /\ ok = TRUE
 
 Names(checks) == LET F == SelectSeq(checks, LAMBDA c : ~c[2]) IN [i \in 1..Len(F) |-> F[i][1]]
 
 Sig(name) == <<kind, Rec[l].ev, name,
                IF Rec[l].ev = "SaveLoad"
-               THEN <<Rec[l].fmt, Rec[l].errclass, Rec[l].skipped > 0, Rec[l].nonfinite > 0, Rec[l].locations > 0>>
+               THEN <<Rec[l].fmt, IF Rec[l].ok = Rec[l].mem_ok THEN "any" ELSE Rec[l].via,   \* the medium, where it made a difference
+                      Rec[l].errclass, Rec[l].skipped > 0, Rec[l].nonfinite > 0, Rec[l].locations > 0>>
                ELSE <<jsonSeen>> >>
 Count(s) == IF s \in DOMAIN seen THEN seen[s] ELSE 0
 Report(names) ==
@@ -59,18 +70,20 @@ Dropped(names) == Len(names) - Cardinality({i \in 1..Len(names) : Count(Sig(name
 
 Begin == /\ Rec[l].ev = "begin"
          /\ kind' = Rec[l].desc.kind /\ step' = 0 /\ traj' = <<>>
+         /\ size' = IF "size" \in DOMAIN Rec[l].desc THEN Rec[l].desc.size ELSE "small"
+         /\ disk' = [f \in Formats |-> Doc(0)] /\ ok' = TRUE
          /\ ref' = <<>> /\ refoks' = <<>> /\ refstart' = <<0, 0>> /\ jsonSeen' = FALSE /\ last' = <<0, 0>>
          /\ stats' = [stats EXCEPT !.cases = @ + 1]
          /\ UNCHANGED <<obj, hist, seen, viol>>
 
 RefEv == /\ Rec[l].ev = "Ref"
          /\ ref' = Rec[l].traj /\ refoks' = Rec[l].oks /\ refstart' = Rec[l].start
-         /\ UNCHANGED <<kind, step, traj, obj, hist, jsonSeen, last, seen, viol, stats>>
+         /\ UNCHANGED <<kind, size, step, traj, obj, disk, ok, hist, jsonSeen, last, seen, viol, stats>>
 
 Start == /\ Rec[l].ev = "Start"
          /\ last' = Rec[l].d
          /\ Report(Names(<< <<"RefStable", Rec[l].d = refstart>> >>))
-         /\ UNCHANGED <<kind, step, traj, obj, hist, ref, refoks, refstart, jsonSeen, stats>>
+         /\ UNCHANGED <<kind, size, step, traj, obj, disk, ok, hist, ref, refoks, refstart, jsonSeen, stats>>
 
 (* Stutter evaluated on the recording: RefTraj is the recorded checkpoint-free run *)
 StutterRec(t) == Len(t) <= Len(ref) /\ t = SubSeq(ref, 1, Len(t))
@@ -95,18 +108,24 @@ StepEv ==
                                   !.after_load_steps = @ + (IF hist # <<>> THEN 1 ELSE 0),
                                   !.step_err = @ + (IF Rec[l].ok THEN 0 ELSE 1),
                                   !.dedup = @ + Dropped(names)]
-  /\ UNCHANGED <<kind, obj, hist, ref, refoks, refstart, jsonSeen>>
+  /\ UNCHANGED <<kind, size, obj, disk, ok, hist, ref, refoks, refstart, jsonSeen>>
 
 SaveLoadEv ==
   /\ Rec[l].ev = "SaveLoad"
   /\ UNCHANGED <<step, traj>>                     \* SaveLoad(fmt) == UNCHANGED <<step, traj>>
   /\ jsonSeen' = (jsonSeen \/ (Rec[l].fmt = "json" /\ Rec[l].ok))
   /\ hist' = IF Rec[l].ok THEN <<Rec[l].fmt>> ELSE hist    \* "some load succeeded in this case" marker
+  /\ ok' = Rec[l].ok
+  \* what the re-used path holds after the write: the document (its length in memory) and whatever lies behind it
+  /\ disk' = IF Rec[l].via = "over" THEN [disk EXCEPT ![Rec[l].fmt] = [len |-> Rec[l].mem_bytes, junk |-> Rec[l].bytes - Rec[l].mem_bytes]]
+              ELSE disk
   /\ LET r == Rec[l]
          lim == IF r.fmt = "json" THEN 1 ELSE 0
          idem == r.ok => (r.ok2 /\ r.d1 = r.d2)
          fid  == r.ok => (r.raw_ok /\ r.load_ulps <= lim)
-         names == Names(<< <<"SaveLoadOk", r.ok>>, <<"Idempotent", idem>>, <<"LoadFidelity", fid>>,
+         nonmem == r.via # "mem"
+         medind == nonmem => (r.ok = r.mem_ok /\ (r.ok => r.d1 = r.dm))
+         names == Names(<< <<"SaveLoadOk", SaveLoadOk'>>, <<"MediumIndependent", medind>>, <<"Idempotent", idem>>, <<"LoadFidelity", fid>>,
                            <<"HistoryColumns", r.colmis = 0>> >>)
          binskip == ~r.ok /\ r.fmt = "bin" /\ r.stage = "de" /\ r.skipped > 0 /\ r.errclass # "any"
          binloc  == ~r.ok /\ r.fmt = "bin" /\ r.stage = "de" /\ r.locations > 0 /\ r.errclass = "any"
@@ -116,6 +135,15 @@ SaveLoadEv ==
                                   !.sl_ok = @ + (IF r.ok THEN 1 ELSE 0),
                                   !.sl_fail = @ + (IF r.ok THEN 0 ELSE 1),
                                   !.via_file = @ + (IF r.via = "file" THEN 1 ELSE 0),
+                                  !.via_over = @ + (IF r.via = "over" THEN 1 ELSE 0),
+                                  !.over_shorter = @ + (IF r.via = "over" /\ r.prev > r.mem_bytes THEN 1 ELSE 0),
+                                  !.via_reader = @ + (IF r.via = "reader" THEN 1 ELSE 0),
+                                  !.via_alias = @ + (IF r.via = "alias" THEN 1 ELSE 0),
+                                  !.large_saveloads = @ + (IF size = "large" THEN 1 ELSE 0),
+                                  !.big_bin_nonmem = @ + (IF nonmem /\ r.fmt = "bin" /\ r.mem_bytes > 1048576 THEN 1 ELSE 0),
+                                  !.big_text_nonmem = @ + (IF nonmem /\ r.fmt # "bin" /\ r.mem_bytes > 1048576 THEN 1 ELSE 0),
+                                  !.junk_behind_doc = @ + (IF r.via = "over" /\ r.bytes > r.mem_bytes THEN 1 ELSE 0),
+                                  !.medium_fail = @ + (IF medind THEN 0 ELSE 1),
                                   !.fail_bin_skipped = @ + (IF binskip THEN 1 ELSE 0),
                                   !.fail_bin_location = @ + (IF binloc THEN 1 ELSE 0),
                                   !.fail_json_nonfinite = @ + (IF jsonnf THEN 1 ELSE 0),
@@ -127,17 +155,17 @@ SaveLoadEv ==
                                   !.json_1ulp_loads = @ + (IF r.ok /\ r.fmt = "json" /\ r.load_ulps = 1 THEN 1 ELSE 0),
                                   !.reload_neq_orig = @ + (IF r.ok /\ ~r.eq_orig THEN 1 ELSE 0),
                                   !.dedup = @ + Dropped(names)]
-  /\ UNCHANGED <<kind, obj, ref, refoks, refstart, last>>
+  /\ UNCHANGED <<kind, size, obj, ref, refoks, refstart, last>>
 
 Panic == /\ Rec[l].ev \in {"panic", "abort", "timeout"}
          /\ Report(<<"NoPanic">>)
          /\ stats' = [stats EXCEPT !.panics = @ + 1]
-         /\ UNCHANGED <<kind, step, traj, obj, hist, ref, refoks, refstart, jsonSeen, last>>
+         /\ UNCHANGED <<kind, size, step, traj, obj, disk, ok, hist, ref, refoks, refstart, jsonSeen, last>>
 
 End == /\ Rec[l].ev = "end"
        /\ IF Rec[l].result = "harness_err" THEN Report(<<"HarnessOk">>) ELSE UNCHANGED <<seen, viol>>
        /\ hist' = <<>>
-       /\ UNCHANGED <<kind, step, traj, obj, ref, refoks, refstart, jsonSeen, last, stats>>
+       /\ UNCHANGED <<kind, size, step, traj, obj, disk, ok, ref, refoks, refstart, jsonSeen, last, stats>>
 
 TNext == /\ l <= Len(Rec) /\ l' = l + 1
          /\ (Begin \/ RefEv \/ Start \/ StepEv \/ SaveLoadEv \/ Panic \/ End)
